@@ -18,6 +18,7 @@ Decided on the resulting normal forms:
 """
 import ast
 import itertools
+from fractions import Fraction
 
 from xfabsa import core, numeric as N
 from xfabsa.core import AnalysisError
@@ -109,6 +110,7 @@ class ReduceEval(ObjEvaluator):
         self.handed = None           # (snapshot of the argument of a_to_cell)
         self.form_calls = []
         self.filter_seen = None
+        self.lu_values = []          # values obtained from an LU-based routine (linalg.det): not exact even on integer input
 
     # ---- callees
     def cpol(self, name, args, kwargs, node):
@@ -147,6 +149,31 @@ class ReduceEval(ObjEvaluator):
             if isinstance(view, MappedTable):
                 raise AnalysisError("reduce_cell: repeated product of the sorted table (line %d)" % node.lineno)
             return MappedTable(view, [[scalar(x) for x in r] for r in M.data])
+        if name == "any" and len(args) == 1 and not kwargs and self.phase == "picking" and self.mode in ("hit", "miss"):
+            V = args[0] if isinstance(args[0], Arr) else materialise(args[0]) if isinstance(args[0], (list, tuple, Opaque)) else None
+            if V is not None and V.flat() and not any(isinstance(x, bool) for x in V.flat()) \
+                    and not all(scalar(x).is_const() for x in V.flat()):
+                # "some entry is not zero": the guard |x_1| + ... + |x_n| > 0
+                q = Rat.const(0)
+                for x in V.flat():
+                    q = q + func_atom("abs", scalar(x))
+                if self.mode == "hit":
+                    self.guards.append((len(self.loops), q, "Gt", Fraction(0), node))
+                return self.mode == "hit"
+        if name == "linalg.det" and len(args) == 1 and not kwargs:
+            M = args[0] if isinstance(args[0], Arr) else materialise(args[0]) if isinstance(args[0], (list, tuple, Opaque)) else None
+            if M is not None and M.shape == (3, 3) and not all(scalar(x).is_const() for x in M.flat()):
+                m = [[scalar(x) for x in r] for r in M.data]
+                d = (m[0][0] * (m[1][1] * m[2][2] - m[1][2] * m[2][1]) - m[0][1] * (m[1][0] * m[2][2] - m[1][2] * m[2][0])
+                     + m[0][2] * (m[1][0] * m[2][1] - m[1][1] * m[2][0]))
+                self.lu_values.append(d)
+                return d
+        if name == "take" and len(args) >= 2 and isinstance(args[1], Perm):
+            ax_ = args[2] if len(args) == 3 else kwargs.get("axis")
+            A_ = args[0] if isinstance(args[0], Arr) else materialise(args[0])
+            if ax_ is None or const_int(ax_) != 0 or A_ is None or len(A_.shape) != 2:
+                raise AnalysisError("reduce_cell: take() with a permutation along something else than the rows of a table (line %d)" % node.lineno)
+            return self.permute_rows(A_, args[1], node)
         if name == "argsort" and len(args) == 1 and not kwargs:
             K = args[0] if isinstance(args[0], Arr) else materialise(args[0])
             if K is None or len(K.shape) != 1:
@@ -171,6 +198,23 @@ class ReduceEval(ObjEvaluator):
             return Arr(out)
         return ObjEvaluator._np_call(self, name, args, kwargs, node)
 
+    def permute_rows(self, base, perm, node):
+        """table[argsort(keys)] (or take(table, argsort(keys), axis=0)): the sorted table"""
+        rows = [[scalar(x) for x in r] for r in base.data]
+        if len(perm.keys) != len(rows):
+            raise AnalysisError("reduce_cell: the table is reordered by a permutation of another length (line %d)" % node.lineno)
+        cols = [c for c in range(len(rows[0])) if all(k.equals(r[c]) for k, r in zip(perm.keys, rows))]
+        self.table = SortedTable(rows, cols[-1] if cols else None, list(perm.keys))
+        self.phase = "picking"
+        return self.table
+
+    def method_call(self, base, attr, args, kwargs, node):
+        if isinstance(base, (SortedTable, TableView, MappedTable)) and attr in ("astype", "copy", "view"):
+            return base            # a change of number type of a table of integers and lengths: the same values
+        if attr == "any" and not args and not kwargs and isinstance(base, Arr) and self.phase == "picking" and self.mode in ("hit", "miss"):
+            return self._np_call("any", [base], {}, node)
+        return ObjEvaluator.method_call(self, base, attr, args, kwargs, node)
+
     def builtin(self, name, args, kwargs, node):
         if name == "len" and args and isinstance(args[0], (SortedTable, TableView, MappedTable)):
             return Rat.const(args[0].n)
@@ -188,13 +232,7 @@ class ReduceEval(ObjEvaluator):
                 rest = elts[1:]
                 if any(not (isinstance(e, ast.Slice) and e.lower is None and e.upper is None and e.step is None) for e in rest):
                     raise AnalysisError("reduce_cell: permuted table indexed with something else than full slices (line %d)" % node.lineno)
-                rows = [[scalar(x) for x in r] for r in base.data]
-                if len(first.keys) != len(rows):
-                    raise AnalysisError("reduce_cell: the table is reordered by a permutation of another length (line %d)" % node.lineno)
-                cols = [c for c in range(len(rows[0])) if all(k.equals(r[c]) for k, r in zip(first.keys, rows))]
-                self.table = SortedTable(rows, cols[-1] if cols else None, list(first.keys))
-                self.phase = "picking"
-                return self.table
+                return self.permute_rows(base, first, node)
         def full_(e):
             return isinstance(e, ast.Slice) and e.lower is None and e.upper is None and e.step is None
         if isinstance(base, SortedTable) and len(elts) == 2 and full_(elts[0]) and isinstance(elts[1], ast.Slice) and elts[1].step is None:
@@ -230,6 +268,28 @@ class ReduceEval(ObjEvaluator):
                 lo = self.eval(elts[0].lower, env) if elts[0].lower is not None else Rat.const(0)
                 return ("table-rows", base, scalar(lo))
             r = self.eval(elts[0], env)
+            if isinstance(r, list) and r and len(elts) <= 2:
+                # several rows at once: table[[i, 1, j]] or table[[i, 1, j], :3]
+                rows_ = []
+                for x_ in r:
+                    xi_ = const_int(x_)
+                    if xi_ is None:
+                        a_ = single_atom(scalar(x_)) if isinstance(x_, Rat) else None
+                        if a_ is None or not a_.endswith("*"):
+                            raise AnalysisError("reduce_cell: sorted table indexed by `%s` (line %d)" % (core.unparse(elts[0]), node.lineno))
+                        rows_.append(base.row(a_))
+                    else:
+                        if not (0 <= xi_ < base.n):
+                            raise AnalysisError("reduce_cell: row %d of the sorted table (line %d)" % (xi_, node.lineno))
+                        rows_.append(base.row(xi_))
+                if len(elts) == 2:
+                    e_ = elts[1]
+                    if not isinstance(e_, ast.Slice) or e_.step is not None:
+                        raise AnalysisError("reduce_cell: unsupported subscript of the sorted table (line %d)" % node.lineno)
+                    lo_ = const_int(self.eval(e_.lower, env)) if e_.lower is not None else None
+                    hi_ = const_int(self.eval(e_.upper, env)) if e_.upper is not None else None
+                    rows_ = [row_[slice(lo_, hi_)] for row_ in rows_]
+                return Arr([list(row_) for row_ in rows_])
             ri = const_int(r)
             if ri is None:
                 a = single_atom(scalar(r)) if isinstance(r, Rat) else None
@@ -545,17 +605,62 @@ def run(ctx):
                     for cand in (q, func_atom("abs", q) if False else q):
                         if (cand * nk).equals(triple) or (cand * nk).equals(-triple):
                             return True
+            # the length of the normal written out: sqrt(k.k)
+            from xfabsa.poly import sqrt_of
+            nk2 = sqrt_of(k[0] * k[0] + k[1] * k[1] + k[2] * k[2])
+            if (q * nk2).equals(triple) or (q * nk2).equals(-triple):
+                return True
             info = None
             from xfabsa.poly import atom_info
             info = atom_info(q)
             if info is not None and info[0] == "abs":
                 return is_plane_distance(info[1][0])
             return q.equals(triple) or q.equals(-triple)
-        okg = (len(g1) == 1 and len(g2) == 1 and g1[0][2] in ("Gt", "GtE") and g2[0][2] in ("Gt", "GtE")
-               and g1[0][3] > 0 and g2[0][3] > 0 and is_cross_size(g1[0][1]) and is_plane_distance(g2[0][1]))
+        # the same two tests on the INDEX triples: A.(s x t) and s x t vanish together, and det[A.s; A.t; A.u] = det(A).det[s; t; u]
+        # with det(A) > 0 for a valid cell.  Products and sums of the small integers are exact in binary arithmetic, so a test
+        # against 0 is sound there; a determinant from numpy.linalg.det (LU factorisation) is not exact even on integers, it
+        # needs a threshold strictly between the rounding noise and 1, the smallest non-zero |det| of an integer matrix
+        index_cols = [c_ for c_ in range(min(3, ev.table.width)) if all(r_[c_].is_const() and r_[c_].const_value().denominator == 1
+                                                                       for r_ in ev.table.source)] if not vector_table else []
+        s0, s1, s2 = (ev.table.row(1)[:3], ev.table.row(i_)[:3], ev.table.row(j_)[:3]) if len(index_cols) == 3 else (None, None, None)
+        k_idx = cross(s1, s0) if s0 is not None else None
+        sumabs_idx = (func_atom("abs", k_idx[0]) + func_atom("abs", k_idx[1]) + func_atom("abs", k_idx[2])) if k_idx else None
+        triple_idx = (k_idx[0] * s2[0] + k_idx[1] * s2[1] + k_idx[2] * s2[2]) if k_idx else None
+
+        def on_indices(q):
+            """the quantity is built from the integer index columns alone"""
+            from xfabsa.poly import ATOM_ARGS
+            def ok_atom(a_):
+                if a_ in ATOM_ARGS:
+                    return ATOM_ARGS[a_][0] == "abs" and all(ok_atom(b_) for x_ in ATOM_ARGS[a_][1] for b_ in x_.atoms())
+                return a_.startswith("S[") and a_.endswith("]") and a_[:-1].rsplit(",", 1)[-1].isdigit() and int(a_[:-1].rsplit(",", 1)[1]) in index_cols
+            return bool(index_cols) and all(ok_atom(a_) for a_ in q.atoms())
+
+        def lu_based(q):
+            return any(q.equals(v_) or q.equals(-v_) for v_ in ev.lu_values)
+
+        def threshold_ok(g):
+            _k, q, opn, lit, _node = g
+            if opn not in ("Gt", "GtE"):
+                return False
+            if on_indices(q) and not lu_based(q):
+                return (0 <= lit < 1) if opn == "Gt" else (0 < lit <= 1)        # exact integers: `> 0` is `>= 1`
+            if on_indices(q):
+                return 0 < lit < 1                                               # integers up to the rounding of the factorisation
+            return lit > 0
+        cross_ok = len(g1) == 1 and (is_cross_size(g1[0][1]) or (sumabs_idx is not None and g1[0][1].equals(sumabs_idx)))
+        plane_ok = len(g2) == 1 and (is_plane_distance(g2[0][1]) or (triple_idx is not None and (g2[0][1].equals(triple_idx) or g2[0][1].equals(-triple_idx))))
+        okg = len(g1) == 1 and len(g2) == 1 and threshold_ok(g1[0]) and threshold_ok(g2[0]) and cross_ok and plane_ok
+        why_ = ""
+        if len(g1) == 1 and len(g2) == 1 and cross_ok and plane_ok and not okg:
+            bad_ = [g for g in (g1[0], g2[0]) if not threshold_ok(g)]
+            why_ = (" (the threshold %g is not above the rounding error of `%s`%s)"
+                    % (float(bad_[0][3]), core.unparse(bad_[0][4])[:50],
+                       ": numpy.linalg.det factorises the matrix, its value on a singular integer matrix is a rounding residue of either sign"
+                       if lu_based(bad_[0][1]) else ""))
         ctx.check(okg, "C18:guards:%s" % short,
-                  "second/third pick are not guarded by positive thresholds on |cross product| and plane distance: %s"
-                  % [(N.short(g[1], 60), g[2], float(g[3])) for g in g1 + g2], where,
+                  "second/third pick are not guarded by positive thresholds on |cross product| and plane distance: %s%s"
+                  % ([(N.short(g[1], 60), g[2], float(g[3])) for g in g1 + g2], why_), where,
                   sample={"thresholds": [float(g[3]) for g in g1 + g2]})
         # ---- layout
         passed = "rows" if as_rows else "cols"
